@@ -336,6 +336,12 @@ def assignProfile : List Member → Nat → Option Rat → Option Rat → List M
   | m :: rest, 0, w, r => ⟨m.name, w.getD m.weight, r.getD m.rel, m.votesCast, m.correct⟩ :: rest
   | m :: rest, i + 1, w, r => m :: assignProfile rest i w r
 
+/-- `list.insert(i, x)`: before position `i`, at the end when `i` is past it -/
+def insertMember : List Member → Nat → Member → List Member
+  | [], _, x => [x]
+  | m :: rest, 0, x => x :: m :: rest
+  | m :: rest, i + 1, x => m :: insertMember rest i x
+
 /-- One public operation on a quorum object. -/
 inductive Op where
   | setStrategy (s : Strategy) (custom : Option Rat)
@@ -346,6 +352,12 @@ inductive Op where
   | vote (beh : Nat → Behaviour)
   | updateReliability (name : List Nat) (ok : Bool)
   | updateAll (correct : VoteType)
+  -- direct assignment to the public attributes `run_vote` reads (no setter involved)
+  | assignStrategy (s : Strategy)                 -- `q.strategy = …`
+  | assignThreshold (custom : Option Rat)         -- `q.custom_threshold = …`
+  | assignMinVoters (n : Nat)                     -- `q.min_voters = …`
+  | deleteAt (i : Nat)                            -- `del q.colony[i]`
+  | insertAt (i : Nat) (name : List Nat) (w : Rat) -- `q.colony.insert(i, AgentProfile(agent, weight=w))`
 
 /-- A quorum object between calls: configuration, colony, and the (agent id, vote type) pairs of the last result. -/
 structure QState where
@@ -373,6 +385,11 @@ def stepOp (st : QState) : Op → QState × Option Result
     match st.last with
     | none => (st, none)
     | some l => (⟨st.cfg, updateAllReliability st.colony l correct, st.last⟩, none)
+  | .assignStrategy s => (⟨⟨s, st.cfg.custom, st.cfg.minVoters⟩, st.colony, st.last⟩, none)
+  | .assignThreshold custom => (⟨⟨st.cfg.strategy, custom, st.cfg.minVoters⟩, st.colony, st.last⟩, none)
+  | .assignMinVoters n => (⟨⟨st.cfg.strategy, st.cfg.custom, n⟩, st.colony, st.last⟩, none)
+  | .deleteAt i => (⟨st.cfg, st.colony.eraseIdx i, st.last⟩, none)
+  | .insertAt i name w => (⟨st.cfg, insertMember st.colony i ⟨name, w, 1, 0, 0⟩, st.last⟩, none)
 
 /-- every result a history of operations produces, in order -/
 def runHistory : QState → List Op → List Result
